@@ -243,11 +243,16 @@ def build_engine(module="api"):
 
 def gen_contract_vcs(q, carve_outs=()):
     repo, ctx, eng = build_engine("api")
+    ckey = q
+    q = q.split("#")[0]          # "qualname#tag": an alternative (self-test) contract for the same function
     if q not in repo.funcs:
         raise Demoted(f"function {q} not found in the repository source")
     fnode, mod, cls = repo.funcs[q]
     eng.module = mod
-    cnode = loader.CONTRACT_AST[q]
+    cnode = loader.CONTRACT_AST[ckey]
+    if ckey != q:
+        eng.contracts = dict(eng.contracts)
+        eng.contracts[q] = cnode
     cparams = [(a.arg, ast.unparse(a.annotation) if a.annotation is not None else None) for a in cnode.args.args + cnode.args.kwonlyargs]
     fa = fnode.args
     fparams = [a.arg for a in fa.posonlyargs + fa.args + fa.kwonlyargs]
